@@ -262,7 +262,15 @@ def run_messages(sh, lab, n):
             if i % 4 == 0:
                 # sections of an undecorated output: rewriting and clearing degrade to appended lines, never cursor codes
                 so.clear()
-                s1, s2 = io.output.section(), io.output.section()
+                if i % 8 == 0 and deco == "plain" and not ansi_stream:
+                    # ... also when the sections were created while the output was still decorated
+                    io, so, se = lab.io("forced", False)
+                    s1, s2 = io.output.section(), io.output.section()
+                    for st in (io.output, s1, s2):
+                        st.set_formatter(lab.PlainFormatter())
+                    sh.count("sections_made_plain_after_creation")
+                else:
+                    s1, s2 = io.output.section(), io.output.section()
                 for st in (s1, s2):
                     for k, v in extra.items():
                         st.formatter.add_style(lab.style(k, *v))
@@ -332,6 +340,41 @@ def check_style(sh, lab, fg, bg, attrs):
         judge("per-call-tagged", f3.format("pre<u>MID</u>post", style=lab.style(None, fg, bg, attrs)), [("pre", want), ("MID", {4}), ("post", want)])
         # a per-call style must not leak into the next call
         judge("after-per-call", f3.format("pre<b>B</b>"), [("pre", set()), ("B", {1})])
+        # a subclass that answers the attribute hooks itself (the converter must ask the hooks), for the first attribute set
+        if attrs and fg == bg:
+            base = lab.Style
+            names = set(attrs)
+
+            class HookStyle(base):
+                def is_bold(self):
+                    return "bold" in names
+
+                def is_dark(self):
+                    return "dark" in names
+
+                def is_italic(self):
+                    return "italic" in names
+
+                def is_underlined(self):
+                    return "underlined" in names
+
+                def is_blinking(self):
+                    return "blinking" in names
+
+                def is_inverse(self):
+                    return "inverse" in names
+
+                def is_hidden(self):
+                    return "hidden" in names
+
+            hs = HookStyle("hk")
+            if fg:
+                hs.fg(fg)
+            if bg:
+                hs.bg(bg)
+            f4 = lab.AnsiFormatter(forced=True)
+            f4.add_style(hs)
+            judge("subclass-hooks", f4.format("<hk>XY</hk>"), [("XY", want)])
         # same through an output's formatting facade
         io, so, se = lab.io("forced")
         io.output.formatter.add_style(lab.style("zz", fg, bg, attrs))
@@ -375,6 +418,10 @@ def line_targets(lab, deco):
 def run_lines(sh, lab):
     texts = [("plain", "hello world", "hello world", "hello world"), ("tagged", "<b>bold</b> x", "\x1b[1mbold\x1b[0m x", "bold x"),
              ("multi", "l1\nl2", "l1\nl2", "l1\nl2"), ("unicode", "é語", "é語", "é語")]
+    for n in (8191, 8192, 8193, 9000, 12287, 12288, 20000, 70000):
+        # long texts: nothing is cut or re-chunked, whatever the size
+        texts.append(("long-%d" % n, "x" * n, "x" * n, "x" * n))
+        texts.append(("long-tagged-%d" % n, "<b>" + "y" * n + "</b>z", "\x1b[1m" + "y" * n + "\x1b[0mz", "y" * n + "z"))
     found = set()
     for deco in ("forced", "plain"):
         labels = [t[0] for t in line_targets(lab, deco)]
@@ -486,6 +533,54 @@ def run_scope(sh, lab, deco, scopes, exit_kind):
         sh.violate("indent-raises", case, "raised %r" % (e,))
 
 
+def run_shared_output_scopes(sh, lab):
+    """One Output object serving as standard AND error output of an I/O object (set-style scopes only: what an
+    increment means for an object that is counted twice is not stated)."""
+    alphabet = [(k, n) for k in ("io.indent", "out.indent") for n in SIZES]
+    for d in (1, 2):
+        for scopes in itertools.product(alphabet, repeat=d):
+            for ex in ("normal", "raise-last", "interrupt"):
+                st = lab.RecStream(False)
+                out = lab.Output(st, lab.PlainFormatter())
+                io = lab.IO(lab.Input(lab.StringInputStream("")), out, out)
+                case = {"kind": "indent-shared-output", "scopes": [list(x) for x in scopes], "exit": ex}
+                sh.case(("shared", scopes, ex), True)
+
+                def probe_shared(n, where):
+                    st.clear()
+                    io.write_line("p1")
+                    io.error_line("e1")
+                    sh.count("indent_probes")
+                    want = "%sp1\n%se1\n" % (" " * n, " " * n)
+                    if st.fetch() != want:
+                        sh.violate("indentation", case, "%s: wrote %r, expected %r" % (where, st.fetch(), want))
+                        return False
+                    return True
+
+                def enter(k):
+                    if k == len(scopes):
+                        probe_shared(scopes[-1][1], "inside")
+                        if ex == "raise-last":
+                            raise Boom()
+                        if ex == "interrupt":
+                            raise KeyboardInterrupt()
+                        return
+                    kind, n = scopes[k]
+                    before = scopes[k - 1][1] if k else 0
+                    try:
+                        with (io.indent(n) if kind == "io.indent" else out.indent(n)):
+                            enter(k + 1)
+                    finally:
+                        probe_shared(before, "after leaving scope %d (%s, exit %s)" % (k, kind, ex))
+
+                try:
+                    enter(0)
+                except (Boom, KeyboardInterrupt):
+                    pass
+                except Exception as e:
+                    sh.violate("indent-raises", case, "raised %r" % (e,))
+
+
 def run_indent(sh, lab, depth, part):
     alphabet = [(s, n) for s in SCOPES for n in SIZES]
     k = 0
@@ -526,6 +621,8 @@ def run(sh, spec):
         run_lines(sh, lab)
     else:
         run_indent(sh, lab, spec["depth"], spec["slice"])
+        if spec["slice"][0] == 0:
+            run_shared_output_scopes(sh, lab)
 
 
 def finalize(tier, merged):
